@@ -91,7 +91,7 @@ Print Assumptions C11_teardown_releases_guards_v2_shipped_refuted.
 (* ================================================================================================
    The default engine (v1) satisfies the statements for EVERY interleaving in which no Start takes its
    status check while the status is Recovering (polite_run) and the store write of UpdateStatus(StatusRunning)
-   does not fail (c_stfail c = false; with it both engines are refuted, see the end of this file); the refutations above all go through a
+   does not fail (c_stfail c = false; with it both engines were refuted as shipped and are repaired since, see the end of this file); the refutations above all go through a
    Start admitted during the recovery back-off.  Proof: inductive invariant Life/RunMapInv.v (Inv). *)
 From Verif Require Import Life.RunMapInv.
 
@@ -233,10 +233,11 @@ Example C11_shipped_witnesses_repaired_v2 :
 Proof. exact (conj blind_delete_repaired_v2 proc_open_fail_repaired_v2). Qed.
 
 (* ================================================================================================
-   A failing store write of UpdateStatus(StatusRunning) is an action of the model (c_stfail). The statements are
-   refuted with it, in both engines (open findings, keyed <engine>/failed-running-write/...): *)
-Theorem C11_running_implies_map_is_live_failed_write_v1_refuted :
-  match trace (cfg_v1_io true) init (w_stfail_start_v1 ++ [ACall KStop 1] ++ user 2) with
+   A failing store write of UpdateStatus(StatusRunning) is an action of the model (c_stfail).
+   As shipped (before 742a56e / eff71a0, [cfg_v?_io_shipped]) the statements are refuted with it, in both engines
+   (findings keyed <engine>/failed-running-write/..., repaired since): *)
+Theorem C11_running_implies_map_is_live_failed_write_v1_shipped_refuted :
+  match trace (cfg_v1_io_shipped true) init (w_stfail_start_v1 ++ [ACall KStop 1] ++ user 2) with
   | Some (ls, s) => quiescent s && status_eqb (s_status s) Running && onat_eqb (s_map s) None && is_live (s_runs s 0)
                     && negb (agrees s)
                     && has_label (fun l => match l with LRet 0 RetErr => true | _ => false end) ls
@@ -244,30 +245,78 @@ Theorem C11_running_implies_map_is_live_failed_write_v1_refuted :
   | None => false
   end = true.
 Proof. exact stfail_start_leaks_run_v1. Qed.
-Print Assumptions C11_running_implies_map_is_live_failed_write_v1_refuted.
+Print Assumptions C11_running_implies_map_is_live_failed_write_v1_shipped_refuted.
 
-Theorem C11_status_agrees_failed_write_at_restart_refuted :
-  (match final (cfg_v1_io true) w_stfail_restart_v1 with
+Theorem C11_status_agrees_failed_write_at_restart_shipped_refuted :
+  (match final (cfg_v1_io_shipped true) w_stfail_restart_v1 with
    | Some s => quiescent s && status_eqb (s_status s) Degraded && is_live (s_runs s 1) && negb (agrees s)
    | None => false
    end = true)
-  /\ (match final (cfg_v2_io true) w_stfail_restart_v2 with
+  /\ (match final (cfg_v2_io_shipped true) w_stfail_restart_v2 with
       | Some s => quiescent s && status_eqb (s_status s) Degraded && is_live (s_runs s 1) && negb (agrees s)
                   && negb (guards_free s)
       | None => false
       end = true).
 Proof. exact (conj stfail_restart_leaks_run_v1 stfail_restart_leaks_run_v2). Qed.
-Print Assumptions C11_status_agrees_failed_write_at_restart_refuted.
+Print Assumptions C11_status_agrees_failed_write_at_restart_shipped_refuted.
 
-(* v2, the write fails at the user's Start: startupDone is closed all the same, the run can be stopped *)
-Example C11_failed_write_at_start_is_stoppable_v2 :
-  match trace (cfg_v2_io true) init w_stfail_start_v2 with
+(* v2 as shipped, the write fails at the user's Start: startupDone is closed all the same, the run can be stopped *)
+Example C11_failed_write_at_start_is_stoppable_v2_shipped :
+  match trace (cfg_v2_io_shipped true) init w_stfail_start_v2 with
   | Some (ls, s) => quiescent s && agrees s && guards_free s && status_eqb (s_status s) UserStopped
                     && has_label (fun l => match l with LRet 0 RetErr => true | _ => false end) ls
                     && has_label (fun l => match l with LRet 1 RetNil => true | _ => false end) ls
   | None => false
   end = true.
 Proof. exact stfail_start_stoppable_v2. Qed.
+
+(* The code as it stands (742a56e / eff71a0 and the wait added to runPipeline; [cfg_v?_io] = repaired with the
+   failing write as an action): the run whose Running write failed is Killed with a fatal error, finalized by its
+   own cleanup goroutine, and the failing Start (user's or nested in a recovery) does not return before that.
+   Everything ends quiescent with no live run, the stored status (Degraded) agrees with the runs, the guards are
+   free, Start returned the error after the closing status. These are the histories of the refutations above; the
+   general statement (every history with failing status writes) is not proved: the inductive invariants of
+   RunMapInv.v / RunMapInvV2.v assume c_stfail = false. The check accepts every observed log with a failing
+   Running write against this model and the monitor decides the property on it. *)
+Theorem C11_failed_write_winds_the_run_down_repaired_partial :
+  (match trace (cfg_v1_io true) init w_stfail_start_repaired_v1 with
+   | Some (ls, s) => quiescent s && agrees s && guards_free s && status_eqb (s_status s) Degraded
+                     && onat_eqb (s_map s) None && closing_before_ret ls
+                     && has_label (fun l => match l with LRet 0 RetErr => true | _ => false end) ls
+                     && negb (has_label (fun l => match l with LNotify _ => true | _ => false end) ls)
+   | None => false
+   end = true)
+  /\ (match trace (cfg_v2_io true) init w_stfail_start_repaired_v2 with
+      | Some (ls, s) => quiescent s && agrees s && guards_free s && status_eqb (s_status s) Degraded
+                        && onat_eqb (s_map s) None && closing_before_ret ls
+                        && has_label (fun l => match l with LRet 0 RetErr => true | _ => false end) ls
+                        && has_label (fun l => match l with LNotify (ResCause CaFatal) => true | _ => false end) ls
+      | None => false
+      end = true)
+  /\ (match final (cfg_v1_io true) w_stfail_restart_repaired_v1 with
+      | Some s => quiescent s && agrees s && guards_free s && status_eqb (s_status s) Degraded
+                  && match live_runs s with [] => true | _ => false end
+      | None => false
+      end = true)
+  /\ (match final (cfg_v2_io true) w_stfail_restart_repaired_v2 with
+      | Some s => quiescent s && agrees s && guards_free s && status_eqb (s_status s) Degraded
+                  && match live_runs s with [] => true | _ => false end
+      | None => false
+      end = true).
+Proof.
+  exact (conj stfail_start_repaired_v1 (conj stfail_start_repaired_v2
+         (conj stfail_restart_repaired_v1 stfail_restart_repaired_v2))).
+Qed.
+Print Assumptions C11_failed_write_winds_the_run_down_repaired_partial.
+
+(* the failing Start cannot return (and the recovering run's cleanup cannot go on to write Degraded) while the run
+   it Killed is still live: the model has no step for it *)
+Theorem C11_failed_start_blocks_until_run_finalized :
+  (trace (cfg_v1_io true) init ([ACall KStart 0] ++ user 5 ++ [AUser 1; AUser 0]) = None)
+  /\ (trace (cfg_v2_io true) init ([ACall KStart 0] ++ user 8 ++ [AUser 1; AUser 0]) = None)
+  /\ (trace (cfg_v1_io true) init (start_v1 0 ++ [AOpen 0] ++ fail_v1 0 CaTransient ++ clean 0 8 ++ [AClean 0 1; AClean 0 0]) = None).
+Proof. exact stfail_start_blocks_until_finalized. Qed.
+Print Assumptions C11_failed_start_blocks_until_run_finalized.
 
 (* ================================================================================================
    Tie between the theorems and the observed behaviour: the trace acceptor is sound. Every event log of
